@@ -336,8 +336,7 @@ func dfsSets(level int) [][][]int {
 	}
 	sets = append(sets,
 		[][]int{LU, LU, LU}, [][]int{LU, LU, TU}, [][]int{LU, TU, TU}, [][]int{TLU, LU, LU},
-		[][]int{LULU, LU, LU}, [][]int{LULU, LU, TU}, [][]int{LUTU, TULU, LU}, [][]int{LULU, LULU, LU},
-		[][]int{LU, LU, LU, LU}, [][]int{LU, LU, LU, TU})
+		[][]int{LULU, LU, LU}, [][]int{LULU, LU, TU}, [][]int{LUTU, TULU, LU}, [][]int{LULU, LULU, LU})
 	return sets
 }
 
